@@ -17,7 +17,10 @@ for d in sorted(glob.glob("/verif/seeded/*")):
         sigs = re.sub(r" \(\d+ occurrences\)", "", mm.group(2)).strip() if mm else ""
         sigs = "; ".join(s.strip() for s in sigs.split(";")[:3])
         verdict = {"1": "caught", "0": "MISSED", "2": "inconclusive"}.get(rc, rc)
-        rows.append("| %s | %s | %s | %s | `%s` |" % (os.path.basename(d), ", ".join(files), (m.get("summary","") + " — needs: " + m.get("needs_to_manifest",""))[:330], verdict + " by " + chk, sigs[:170]))
-print("| seed | file(s) | change / what it needs | result | first signatures |")
-print("|---|---|---|---|---|")
+        cur = (m.get("detected_by", {}).get(chk) or [""])[0]
+        cm = re.match(r"\S+ exit=(\d+)", cur)
+        now = {"1": "caught", "0": "MISSED", "2": "inconclusive"}.get(cm.group(1), "?") if cm else "?"
+        rows.append("| %s | %s | %s | %s | %s | `%s` |" % (os.path.basename(d), ", ".join(files), (m.get("summary","") + " — needs: " + m.get("needs_to_manifest",""))[:330], verdict + " by " + chk, now, sigs[:170]))
+print("| seed | file(s) | change / what it needs | first result | now | first signatures |")
+print("|---|---|---|---|---|---|")
 print("\n".join(rows))
